@@ -143,6 +143,10 @@ func (d *DNS)getDomain(domain string) []byte {
 		segments []string = strings.Split(domain, ".")
 	)
 	for _, seg := range segments {
+		// 绝对域名("example.com.")末尾的点表示根，不是一个空标签
+		if len(seg) == 0 {
+			continue
+		}
 		binary.Write(&buffer, binary.BigEndian, byte(len(seg)))
 		binary.Write(&buffer, binary.BigEndian, []byte(seg))
 	}
